@@ -8,8 +8,17 @@ package lib
 // Station side: the real sendToDetector / clearDetector / registerForDetector / updateInDetector run
 // unchanged and publish into the in-process Redis stand-in (zz_verif_c10_redis_test.go).  Detector
 // side: the captured bytes are decoded and handed to the detector's own acceptance code, sliced out
-// of src/sessions.rs and compiled by rustc (zz_verif_c10_oracle_test.go).  The Lean model answers
-// the same cases (mkS2D / mkClear + convert / handle) and the two answer streams are diffed.
+// of src/sessions.rs and src/flow_tracker.rs and compiled by rustc (zz_verif_c10_oracle_test.go).  The
+// published bytes are read with the tag / reader / enum tables of the detector's generated
+// src/signalling.rs (c10Wire.decode), not with the Go protobuf library.  The Lean model answers the same
+// cases (mkS2D / mkClear + convert / handle, dropStale, isTracked) and the two answer streams are diffed.
+//
+// A case is a sequence of steps on one detector with a virtual clock ("<now>@" prefix): station
+// messages, sweeps of stale sessions ("S") and lookups by the packet path ("F,…").  After every
+// announcement of an admitted registration the registrant's flow is looked up one nanosecond before the
+// station's own expiry and must be forwarded (C10:flow-not-forwarded).  Every step's tag is reduced to
+// the index of the first step of the case with the same tag, on the detector's tag strings and on the
+// model's tag tuples: the rendering is checked to be injective where the cases go.
 
 import (
 	"encoding/binary"
@@ -36,6 +45,7 @@ import (
 	"github.com/refraction-networking/conjure/pkg/transports/wrapping/prefix"
 	pb "github.com/refraction-networking/conjure/proto"
 	"google.golang.org/protobuf/proto"
+	"google.golang.org/protobuf/reflect/protoreflect"
 	"google.golang.org/protobuf/types/known/anypb"
 )
 
@@ -705,19 +715,6 @@ func c10SatAdd(a, b uint64) uint64 {
 	return a + b
 }
 
-// c10RegOfModel rebuilds the registration of an earlier "R,…" step.
-func c10RegOfModel(model string) *DecoyRegistration {
-	d := &DecoyRegistration{}
-	if f := strings.Split(model, ","); len(f) == 7 {
-		d.PhantomIp, _ = hex.DecodeString(strings.TrimPrefix(f[1], "-"))
-		d.registrationAddr, _ = hex.DecodeString(strings.TrimPrefix(f[2], "-"))
-		p, _ := strconv.Atoi(f[3])
-		pr, _ := strconv.Atoi(f[4])
-		d.PhantomPort, d.PhantomProto = uint16(p), pb.IPProto(pr)
-	}
-	return d
-}
-
 // c10FlowNear: a lookup for the flow of d, or for a flow that differs from it in one component
 // (correspondence only: exercises the tag of flows against the tag of sessions, component by component).
 func c10FlowNear(r *vlib.Rand, d *DecoyRegistration) (c10Step, bool) {
@@ -1011,8 +1008,8 @@ func TestVerifC10(t *testing.T) {
 
 	w.admittedEnumeration(r)
 	w.rawExhaustive()
-	w.directRandom(r, vlib.Budget(3000, 150000))
-	w.rawRandom(r, vlib.Budget(3000, 150000))
+	w.directRandom(r, vlib.Budget(8000, 150000))
+	w.rawRandom(r, vlib.Budget(8000, 150000))
 	w.run([]c10Step{w.stepClear()}, true)
 
 	cmds := []string{}
@@ -1148,7 +1145,11 @@ func TestVerifC10Gen(t *testing.T) {
 	if err := proto.Unmarshal(pubs[0].payload, mClr); err != nil {
 		t.Fatal(err)
 	}
-	ans, err := w.orc.ask(c10OracleMsg(mClr))
+	clrSeen, err := w.wire.decode(pubs[0].payload)
+	if err != nil {
+		t.Fatalf("clear: the detector's protobuf code cannot read the publication: %v", err)
+	}
+	ans, err := w.orc.ask(clrSeen)
 	if err != nil {
 		t.Fatal(err)
 	}
@@ -1177,12 +1178,6 @@ func TestVerifC10Gen(t *testing.T) {
 		t.Fatalf("unexpected class %q", cls)
 		return ""
 	}
-	optNat := func(present bool, v uint64) string {
-		if !present {
-			return "none"
-		}
-		return fmt.Sprintf("some %d", v)
-	}
 	var protos []string
 	for _, tt := range c10TransportOrder {
 		protos = append(protos, fmt.Sprintf("(%d, %d)", int(tt), int(w.rm.registeredDecoys.transports[tt].GetProto())))
@@ -1203,10 +1198,138 @@ func TestVerifC10Gen(t *testing.T) {
 	fmt.Fprintf(&sb, "def channelStation : String := %q\n", chGo)
 	fmt.Fprintf(&sb, "def channelDetector : String := %q\n", w.orc.channel)
 	sb.WriteString("/-- the message published by `clearDetector`; text fields as classified by the detector's parser -/\n")
+	cf := strings.Split(clrSeen, ",") // op, proto, client, phantom, dport, sport, timeout — as the detector reads the bytes
+	num := func(f string) string {
+		if f == "-" {
+			return "none"
+		}
+		v, err := strconv.ParseInt(f, 10, 64)
+		if err != nil {
+			u, err := strconv.ParseUint(f, 10, 64)
+			if err != nil {
+				t.Fatalf("clear: bad number %q", f)
+			}
+			return fmt.Sprintf("some %d", u)
+		}
+		if v < 0 {
+			return fmt.Sprintf("some %d", uint64(uint32(v)))
+		}
+		return fmt.Sprintf("some %d", v)
+	}
 	fmt.Fprintf(&sb, "def clearMsg : S2D :=\n  { phantomIp := %s\n    clientIp := %s\n    timeoutNs := %s\n    operation := %s\n    dstPort := %s\n    srcPort := %s\n    proto := %s }\n",
-		leanTxt(mClr.PhantomIp != nil, ans[0].clsPhantom), leanTxt(mClr.ClientIp != nil, ans[0].clsClient), optNat(mClr.TimeoutNs != nil, mClr.GetTimeoutNs()),
-		optNat(mClr.Operation != nil, uint64(mClr.GetOperation())), optNat(mClr.DstPort != nil, uint64(mClr.GetDstPort())), optNat(mClr.SrcPort != nil, uint64(mClr.GetSrcPort())),
-		optNat(mClr.Proto != nil, uint64(mClr.GetProto())))
+		leanTxt(cf[3] != "-", ans[0].clsPhantom), leanTxt(cf[2] != "-", ans[0].clsClient), num(cf[6]), num(cf[0]), num(cf[4]), num(cf[5]), num(cf[1]))
+	// ---- wire format of StationToDetector: the Go descriptor next to the detector's generated Rust code
+	kindName := func(fd protoreflect.FieldDescriptor) (string, uint64, error) {
+		switch fd.Kind() {
+		case protoreflect.StringKind:
+			return "string", 2, nil
+		case protoreflect.Uint64Kind:
+			return "uint64", 0, nil
+		case protoreflect.Uint32Kind:
+			return "uint32", 0, nil
+		case protoreflect.EnumKind:
+			return "enum", 0, nil
+		}
+		return "", 0, fmt.Errorf("StationToDetector.%s has kind %s, which the harness does not know", fd.Name(), fd.Kind())
+	}
+	type wf struct {
+		tag        uint64
+		name, kind string
+	}
+	var goW, rustW []wf
+	md := (&pb.StationToDetector{}).ProtoReflect().Descriptor()
+	for i := 0; i < md.Fields().Len(); i++ {
+		fd := md.Fields().Get(i)
+		k, wt, err := kindName(fd)
+		if err != nil {
+			t.Fatal(err)
+		}
+		if fd.Cardinality() == protoreflect.Repeated {
+			t.Fatalf("StationToDetector.%s is repeated", fd.Name())
+		}
+		goW = append(goW, wf{uint64(fd.Number())<<3 | wt, string(fd.Name()), k})
+	}
+	for _, f := range w.wire.fields {
+		k := f.reader
+		if k == "enum_or_unknown" {
+			k = "enum"
+		}
+		rustW = append(rustW, wf{f.tag, f.name, k})
+	}
+	leanW := func(l []wf) string {
+		sort.Slice(l, func(i, j int) bool { return l[i].tag < l[j].tag })
+		var p []string
+		for _, x := range l {
+			p = append(p, fmt.Sprintf("(%d, %q, %q)", x.tag, x.name, x.kind))
+		}
+		return "[" + strings.Join(p, ", ") + "]"
+	}
+	sb.WriteString("\n/-- wire format of `StationToDetector`: (tag = field number * 8 + wire type, field, kind), by tag.\n`goWire`: descriptor of the Go message the station marshals; `rustWire`: the `merge_from` of the detector's\ngenerated `src/signalling.rs`. -/\n")
+	fmt.Fprintf(&sb, "def goWire : List (Nat × String × String) := %s\n", leanW(goW))
+	fmt.Fprintf(&sb, "def rustWire : List (Nat × String × String) := %s\n", leanW(rustW))
+	type ev struct {
+		enum, name string
+		num        int64
+	}
+	leanE := func(l []ev) string {
+		sort.Slice(l, func(i, j int) bool {
+			if l[i].enum != l[j].enum {
+				return l[i].enum < l[j].enum
+			}
+			return l[i].num < l[j].num
+		})
+		var p []string
+		for _, x := range l {
+			if x.num < 0 {
+				t.Fatalf("negative enum value %s.%s", x.enum, x.name)
+			}
+			p = append(p, fmt.Sprintf("(%q, %q, %d)", x.enum, strings.ToLower(x.name), x.num))
+		}
+		return "[" + strings.Join(p, ", ") + "]"
+	}
+	var goE, rustE []ev
+	var rustD []string
+	for _, ed := range []protoreflect.EnumDescriptor{pb.IPProto(0).Descriptor(), pb.StationOperations(0).Descriptor()} {
+		for i := 0; i < ed.Values().Len(); i++ {
+			v := ed.Values().Get(i)
+			goE = append(goE, ev{string(ed.Name()), string(v.Name()), int64(v.Number())})
+		}
+	}
+	for _, e := range w.wire.enums {
+		for _, v := range e.fromI32 {
+			n, err := strconv.ParseInt(v[0], 10, 64)
+			if err != nil {
+				t.Fatal(err)
+			}
+			rustE = append(rustE, ev{e.name, v[1], n})
+		}
+		rustD = append(rustD, fmt.Sprintf("(%q, %q)", e.name, strings.ToLower(e.deflt)))
+	}
+	sb.WriteString("/-- enum values on the wire: (enum, value name in lower case, number).  `goEnums`: the Go descriptors;\n`rustEnums`: the `from_i32` tables of `src/signalling.rs`; `rustEnumDefaults`: what the detector's getters\nreturn for an absent or unknown value. -/\n")
+	fmt.Fprintf(&sb, "def goEnums : List (String × String × Nat) := %s\n", leanE(goE))
+	fmt.Fprintf(&sb, "def rustEnums : List (String × String × Nat) := %s\n", leanE(rustE))
+	sort.Strings(rustD)
+	fmt.Fprintf(&sb, "def rustEnumDefaults : List (String × String) := [%s]\n", strings.Join(rustD, ", "))
+
+	// ---- the station's main package (go/ast)
+	facts, err := c10MainFacts()
+	if err != nil {
+		t.Fatal(err)
+	}
+	var en []string
+	for _, tt := range facts.enabled {
+		en = append(en, strconv.Itoa(int(tt)))
+	}
+	var ex []string
+	for _, e := range facts.exitsAfterGo {
+		ex = append(ex, strconv.Quote(e))
+	}
+	sb.WriteString("\n/-- `cmd/application`: wire values of the transports the station enables (keys of `enabledTransports`) -/\n")
+	fmt.Fprintf(&sb, "def enabledTransports : List Nat := [%s]\n", strings.Join(en, ", "))
+	sb.WriteString("/-- `cmd/application/main`: `defer <registration manager>.Cleanup()` is a top-level statement of `main`\nplaced before the first `go` statement that refers to the registration manager -/\n")
+	fmt.Fprintf(&sb, "def mainDefersCleanup : Bool := %v\n", facts.defersCleanup && facts.deferBeforeGo)
+	sb.WriteString("/-- calls in `main`, lexically after that `go` statement, that end the process without running deferred\ncalls (`os.Exit`, `*.Fatal*`, `runtime.Goexit`, `panic`) -/\n")
+	fmt.Fprintf(&sb, "def mainExitsAfterStart : List String := [%s]\n", strings.Join(ex, ", "))
 	sb.WriteString("\nend CJ.Gen.C10\n")
 	dir := os.Getenv("VERIF_OUT")
 	if dir == "" {
